@@ -240,7 +240,6 @@ fn partitioning(c: &Case) -> Result<Partitioning> {
 
 // ------------------------------------------------------------------------------------------ scripted input plan
 
-static PROGRESS: AtomicU64 = AtomicU64::new(0);
 
 #[derive(Debug)]
 struct ScriptExec {
@@ -248,10 +247,11 @@ struct ScriptExec {
     props: Arc<PlanProperties>,
     yield_seed: u64,
     log: Arc<parking_lot::Mutex<Vec<Value>>>,
+    progress: Arc<AtomicU64>,
 }
 
 impl ScriptExec {
-    fn new(c: &Case, log: Arc<parking_lot::Mutex<Vec<Value>>>) -> Self {
+    fn new(c: &Case, log: Arc<parking_lot::Mutex<Vec<Value>>>, progress: Arc<AtomicU64>) -> Self {
         let sch = schema();
         let eq = if c.preserve_order {
             EquivalenceProperties::new_with_orderings(Arc::clone(&sch), [[PhysicalSortExpr::new(col("s", &sch).unwrap(), SortOptions { descending: false, nulls_first: false })]])
@@ -260,7 +260,7 @@ impl ScriptExec {
         };
         let bounded = if c.unbounded { Boundedness::Unbounded { requires_infinite_memory: false } } else { Boundedness::Bounded };
         let props = PlanProperties::new(eq, Partitioning::UnknownPartitioning(c.inputs.len()), EmissionType::Incremental, bounded);
-        ScriptExec { parts: c.inputs.clone(), props: Arc::new(props), yield_seed: c.yield_seed, log }
+        ScriptExec { parts: c.inputs.clone(), props: Arc::new(props), yield_seed: c.yield_seed, log, progress }
     }
 }
 
@@ -298,6 +298,7 @@ impl ExecutionPlan for ScriptExec {
             rng: self.yield_seed.wrapping_mul(0x9E3779B97F4A7C15) ^ (partition as u64 + 1),
             fuzz: self.yield_seed != 0,
             log: Arc::clone(&self.log),
+            progress: Arc::clone(&self.progress),
         }))
     }
 }
@@ -309,6 +310,7 @@ struct ScriptStream {
     rng: u64,
     fuzz: bool,
     log: Arc<parking_lot::Mutex<Vec<Value>>>,
+    progress: Arc<AtomicU64>,
 }
 
 fn xorshift(x: &mut u64) -> u64 {
@@ -340,7 +342,7 @@ impl Stream for ScriptStream {
         }
         let it = self.items[self.pos].clone();
         self.pos += 1;
-        PROGRESS.fetch_add(1, AO::Relaxed);
+        self.progress.fetch_add(1, AO::Relaxed);
         match it {
             Item::Batch(rows) => {
                 let (i, pos) = (self.input, self.pos);
@@ -385,6 +387,7 @@ fn root_is_resources(e: &DataFusionError) -> bool {
 
 pub fn run_case(c: &Case) -> Outcome {
     let mut o = Outcome::default();
+    let t_begin = std::time::Instant::now();
     let log = Arc::new(parking_lot::Mutex::new(Vec::<Value>::new()));
     let rt = tokio::runtime::Builder::new_multi_thread().worker_threads(c.threads.max(1)).enable_all().build().unwrap();
     let mut rb = RuntimeEnvBuilder::default();
@@ -397,11 +400,13 @@ pub fn run_case(c: &Case) -> Outcome {
         cfg.options_mut().execution.max_spill_file_size_bytes = datafusion_common::config::ConfigNonZeroUsize::try_new(m.max(1)).unwrap();
     }
     let ctx = Arc::new(TaskContext::default().with_session_config(cfg).with_runtime(Arc::clone(&env)));
-    let input: Arc<dyn ExecutionPlan> = Arc::new(ScriptExec::new(c, Arc::clone(&log)));
+    let progress = Arc::new(AtomicU64::new(0));
+    let input: Arc<dyn ExecutionPlan> = Arc::new(ScriptExec::new(c, Arc::clone(&log), Arc::clone(&progress)));
     let part = match partitioning(c) {
         Ok(p) => p,
         Err(e) => {
-            o.skipped = Some(format!("partitioning rejected: {e}"));
+            // the generated split points are strictly increasing under the ordering: a rejection is a defect
+            o.violation = Some(format!("a valid partitioning specification was rejected: {e}"));
             return o;
         }
     };
@@ -430,6 +435,7 @@ pub fn run_case(c: &Case) -> Outcome {
     o.batches = vec![0; nout];
     let results: Arc<parking_lot::Mutex<Vec<(usize, Vec<Row>, String, usize)>>> = Arc::new(parking_lot::Mutex::new(vec![]));
     let fuzz = c.yield_seed;
+    let t_setup = t_begin.elapsed();
     let hang = rt.block_on(async {
         let mut handles = vec![];
         // streams are created in a seeded order (the first poll of any of them starts the input tasks)
@@ -448,6 +454,7 @@ pub fn run_case(c: &Case) -> Outcome {
             let ctx = Arc::clone(&ctx);
             let results = Arc::clone(&results);
             let log = Arc::clone(&log);
+            let progress = Arc::clone(&progress);
             let mut rng = fuzz.wrapping_mul(31).wrapping_add(p as u64 + 7) | 1;
             handles.push(tokio::spawn(async move {
                 let mut rows = vec![];
@@ -470,14 +477,14 @@ pub fn run_case(c: &Case) -> Outcome {
                         match s.next().await {
                             Some(Ok(b)) => {
                                 nb += 1;
-                                PROGRESS.fetch_add(1, AO::Relaxed);
+                                progress.fetch_add(1, AO::Relaxed);
                                 let rs = from_batch(&b);
                                 log.lock().push(json!({"e": "out", "o": p + 1, "ids": rs.iter().map(|r| r.id).collect::<Vec<_>>()}));
                                 rows.extend(rs);
                             }
                             Some(Err(e)) => {
                                 status = if root_is_resources(&e) { "resource".into() } else { format!("err:{e}") };
-                                log.lock().push(json!({"e": "oerr", "o": p + 1}));
+                                log.lock().push(json!({"e": if status == "resource" { "ores" } else { "oerr" }, "o": p + 1}));
                                 break;
                             }
                             None => {
@@ -494,13 +501,13 @@ pub fn run_case(c: &Case) -> Outcome {
         // progress-based watchdog: a hang is declared only after 40 s without any batch moving
         let all = futures::future::join_all(handles);
         tokio::pin!(all);
-        let mut last = PROGRESS.load(AO::Relaxed);
+        let mut last = progress.load(AO::Relaxed);
         let mut idle = 0;
         loop {
             tokio::select! {
                 _ = &mut all => return false,
                 _ = tokio::time::sleep(std::time::Duration::from_secs(2)) => {
-                    let now = PROGRESS.load(AO::Relaxed);
+                    let now = progress.load(AO::Relaxed);
                     if now == last { idle += 1; } else { idle = 0; last = now; }
                     if idle >= 20 { return true; }
                 }
@@ -517,16 +524,18 @@ pub fn run_case(c: &Case) -> Outcome {
     o.spilled = exec.metrics().and_then(|m| m.spill_count()).unwrap_or(0) as u64;
     drop(exec);
     drop(ctx);
-    // all streams are dropped; background tasks are aborted asynchronously: wait (progress-free, generous)
+    // all streams are dropped; background tasks are aborted asynchronously.  Normally the pool is
+    // empty at once; the verdict is taken only after the runtime itself has shut down (every task
+    // future dropped), so it does not depend on timing.
     let t0 = std::time::Instant::now();
-    while env.memory_pool.reserved() != 0 && t0.elapsed().as_secs() < 30 && !hang {
-        std::thread::sleep(std::time::Duration::from_millis(2));
+    while env.memory_pool.reserved() != 0 && t0.elapsed().as_secs() < 5 && !hang {
+        std::thread::sleep(std::time::Duration::from_millis(1));
     }
+    rt.shutdown_timeout(std::time::Duration::from_secs(if hang { 1 } else { 120 }));
     o.reserved_after = env.memory_pool.reserved();
-    rt.shutdown_timeout(std::time::Duration::from_secs(if hang { 1 } else { 20 }));
     o.events = std::mem::take(&mut *log.lock());
     if std::env::var("C10_TIMING").is_ok() {
-        eprintln!("timing: after-run {:?} reserved_wait_end {:?}", t_run.elapsed(), t0.elapsed());
+        eprintln!("timing: setup {:?} total {:?} after-run {:?} reserved_wait_end {:?}", t_setup, t_begin.elapsed(), t_run.elapsed(), t0.elapsed());
     }
     o
 }
@@ -876,20 +885,38 @@ pub fn main() {
     let (mut total, mut skipped, mut spilled_runs, mut rows_delivered, mut resource_runs, mut err_runs, mut drop_runs, mut po_runs) = (0usize, 0usize, 0usize, 0usize, 0usize, 0usize, 0usize, 0usize);
     let mut cfgs = HashSet::new();
     let mut schemes = BTreeMap::<String, usize>::new();
-    for c in &cases {
-        let mut o = run_case(c);
-        let mut v = judge(c, &o);
-        if o.hang {
-            // confirm a suspected hang once more on a single-threaded schedule without fuzzing
-            let mut c2 = c.clone();
-            c2.threads = 1;
-            c2.yield_seed = 0;
-            let o2 = run_case(&c2);
-            if !o2.hang {
-                v = None;
-                o.skipped = Some("suspected hang not reproduced".into());
-            }
+    // cases are independent: run them on a few OS threads (each case has its own runtime and pool)
+    let next = std::sync::atomic::AtomicUsize::new(0);
+    let done: parking_lot::Mutex<Vec<Option<(Outcome, Option<String>)>>> = parking_lot::Mutex::new((0..cases.len()).map(|_| None).collect());
+    let jobs: usize = util::arg("--jobs").and_then(|s| s.parse().ok()).unwrap_or(4);
+    std::thread::scope(|sc| {
+        for _ in 0..jobs {
+            sc.spawn(|| loop {
+                let k = next.fetch_add(1, AO::Relaxed);
+                if k >= cases.len() {
+                    break;
+                }
+                let c = &cases[k];
+                let mut o = run_case(c);
+                let mut v = judge(c, &o);
+                if o.hang {
+                    // confirm a suspected hang once more on a single-threaded schedule without fuzzing
+                    let mut c2 = c.clone();
+                    c2.threads = 1;
+                    c2.yield_seed = 0;
+                    let o2 = run_case(&c2);
+                    if !o2.hang {
+                        v = None;
+                        o.skipped = Some("suspected hang not reproduced".into());
+                    }
+                }
+                done.lock()[k] = Some((o, v));
+            });
         }
+    });
+    let mut done = done.into_inner();
+    for (k, c) in cases.iter().enumerate() {
+        let (o, v) = done[k].take().unwrap();
         total += 1;
         if o.skipped.is_some() {
             skipped += 1;
